@@ -288,3 +288,24 @@ annotate_ancestry = Contract(
     canaries=["node.body[0]._location == []"],
 )
 CONTRACTS.append(annotate_ancestry)
+
+# ------------------------------------------------------------------------------------------- it2literal (C14: evaluated input values -> Literal[...])
+it2literal = Contract(
+    "doctrans.ast_utils:it2literal",
+    properties=["C14"],
+    note="tuples of 1..3 int / str values (the values an evaluated input expression yields); set_value inlined",
+    cases=[Case("ints=%d" % n, {"it": ("tuple", ["int"] * n)}) for n in (1, 2, 3)] + [Case("mixed", {"it": ("tuple", ["bool", "int", "str"])})],
+    ensures=[
+        Clause("IL-kind", "typeis(result, 'Subscript') and result.value.id == 'Literal'", note="a Literal[...] annotation"),
+        Clause("IL-one", "result.slice.value == it[0]", when=["ints=1"], note="a single value is the subscript itself"),
+        Clause("IL-all-2", "[e.value for e in result.slice.elts] == [it[0], it[1]]", when=["ints=2"],
+               note="C14: every evaluated value appears, once per occurrence and in order - values that merely compare equal are not merged"),
+        Clause("IL-all-3", "[e.value for e in result.slice.elts] == [it[0], it[1], it[2]]", when=["ints=3"]),
+        Clause("IL-mixed", "len(result.slice.elts) == 3 and typeis(result.slice.elts[0].value, 'bool') and result.slice.elts[0].value == it[0] "
+                           "and typeis(result.slice.elts[1].value, 'int') and result.slice.elts[1].value == it[1] and result.slice.elts[2].value == %s" %
+               "(it[2][1:-1] if len(it[2]) > 2 and it[2][0] == it[2][-1] and it[2][0] in ('\"', \"'\") else it[2])", when=["mixed"],
+               note="False / 0 and True / 1 stay distinct members (strings go through set_value: one pair of enclosing quotes is stripped)"),
+    ],
+    canaries=["len(it) == 1"],
+)
+CONTRACTS.append(it2literal)
